@@ -1,10 +1,18 @@
 import QibModel.GQ
 import QibModel.Pauli
+import QibGen.VqeTables
 /-!
 Model of `algorithms/vqe` (C20), Mathlib-free, on exact Gaussian rationals.
 
+The shapes that matter are *generated* from the current source by `harness/translators/vqe.py` into
+`QibGen/VqeTables.lean` (which state factor is conjugated and which product comes first in
+`measure_expectation_statevector`; the accepted `excitations` settings; the operator kinds of the cluster terms per
+`as_matrix` branch and their order; the sign / conjugation of the adjoint part of the exponent; `num_parameters`);
+the definitions below are driven by those tables, the theorems of `Properties/C20.lean` re-check them on every run.
+
 * `expect ψ P` mirrors `measure_expectation_statevector`: `(state.conj().T @ M) @ state`, i.e. first the
-  row vector `vⱼ = Σᵢ conj ψᵢ · Pᵢⱼ`, then `Σⱼ vⱼ · ψⱼ`. NumPy refuses the product when the length of the
+  row vector `vⱼ = Σᵢ conj ψᵢ · Pᵢⱼ`, then `Σⱼ vⱼ · ψⱼ` (or the column vector `M @ state` first, if the source
+  says so). NumPy refuses the product when the length of the
   state differs from the matrix dimension; the model refuses the same inputs (`Except`).
   `expectPauli ψ op` is the same call on a `PauliOperator` given as (string, weight) list: the matrix is
   assembled from the entries of the Pauli model (`QibModel/Pauli.lean`, bridged to `PS.mat` in C09); the
@@ -23,7 +31,7 @@ Model of `algorithms/vqe` (C20), Mathlib-free, on exact Gaussian rationals.
 * `numberOp L` is the total particle-number operator `Σₖ a†ₖ aₖ`: diagonal, entry = number of set site bits.
 -/
 namespace Qib.Vqe
-open Qib
+open Qib QibGen.Vqe
 
 /-- entrywise difference (left operand fixes the shape, like the other `Mat` operations) -/
 def sub (A B : Mat) : Mat := Mat.ofFn A.n A.m fun i j => A.get i j - B.get i j
@@ -35,14 +43,29 @@ def sumRange (n : Nat) (f : Nat → GQ) : GQ := (List.range n).foldl (fun acc k 
 
 /-! ### expectation value -/
 
-/-- `state.conj().T @ M`: the row vector `vⱼ = Σᵢ conj ψᵢ · Pᵢⱼ` -/
-def conjRow (ψ : Array GQ) (P : Mat) : Array GQ :=
-  Array.ofFn (n := P.m) fun j => sumRange ψ.size fun i => (ψ.getD i 0).conj * P.get i j.val
+/-- a state factor as it enters the product: conjugated or not (generated flag) -/
+def cj (b : Bool) (z : GQ) : GQ := if b then z.conj else z
 
-/-- `(state.conj().T @ M) @ state` without the shape checks -/
-def expectRaw (ψ : Array GQ) (P : Mat) : GQ :=
-  let v := conjRow ψ P
-  sumRange v.size fun j => v.getD j 0 * ψ.getD j 0
+/-- `a @ M` with `a` the left state factor: the row vector `vⱼ = Σᵢ aᵢ · Pᵢⱼ` -/
+def rowVec (ψ : Array GQ) (P : Mat) : Array GQ :=
+  Array.ofFn (n := P.m) fun j => sumRange ψ.size fun i => cj expectConjLeft (ψ.getD i 0) * P.get i j.val
+
+/-- `(a @ M) @ b` without the shape checks -/
+def expectLF (ψ : Array GQ) (P : Mat) : GQ :=
+  let v := rowVec ψ P
+  sumRange v.size fun j => v.getD j 0 * cj expectConjRight (ψ.getD j 0)
+
+/-- `M @ b` with `b` the right state factor: the column vector `vᵢ = Σⱼ Pᵢⱼ · bⱼ` -/
+def colVec (ψ : Array GQ) (P : Mat) : Array GQ :=
+  Array.ofFn (n := P.n) fun i => sumRange ψ.size fun j => P.get i.val j * cj expectConjRight (ψ.getD j 0)
+
+/-- `a @ (M @ b)` without the shape checks -/
+def expectRF (ψ : Array GQ) (P : Mat) : GQ :=
+  let v := colVec ψ P
+  sumRange v.size fun i => cj expectConjLeft (ψ.getD i 0) * v.getD i 0
+
+/-- the product in the order the source forms it -/
+def expectRaw (ψ : Array GQ) (P : Mat) : GQ := if expectLeftFirst then expectLF ψ P else expectRF ψ P
 
 /-- `measure_expectation_statevector`: NumPy's `@` raises `ValueError` unless `len(state) = M.shape[0]`
 (first product) and `M.shape[1] = len(state)` (second product). -/
@@ -114,33 +137,47 @@ def termMat (L : Nat) (kinds : List Bool) (coeffs : Array GQ) : Mat :=
 
 /-! ### the ansatz -/
 
-inductive Exc where
-  | s | d | sd
-  deriving DecidableEq, Repr
+/-- constructor check on `excitations`: only the settings listed in the source are accepted -/
+def parseExc (s : String) : Except String String :=
+  if s ∈ excSettings then .ok s else .error "ValueError"
 
-/-- constructor check on `excitations`: only `"s"`, `"d"`, `"sd"` are accepted -/
-def parseExc (s : String) : Except String Exc :=
-  if s = "s" then .ok .s else if s = "d" then .ok .d else if s = "sd" then .ok .sd else .error "ValueError"
+/-- `num_parameters`: `Σ nqubits**k` over the exponents of the matching branch (else branch = last resort) -/
+def numParamExpsOf (exc : String) : List Nat :=
+  match numParamExps.find? (fun e => e.1 == some exc) with
+  | some e => e.2
+  | none => match numParamExps.find? (fun e => e.1 == none) with
+    | some e => e.2
+    | none => []
 
-def numParameters (L : Nat) : Exc → Nat
-  | .s => L ^ 2
-  | .d => L ^ 4
-  | .sd => L ^ 2 + L ^ 4
+def numParameters (L : Nat) (exc : String) : Nat := ((numParamExpsOf exc).map fun k => L ^ k).sum
 
-def kindsS : List Bool := [true, false]
-def kindsD : List Bool := [true, true, false, false]
+/-- the operator kinds of the cluster terms of the `as_matrix` branch for `exc` -/
+def kindsOf (exc : String) : Option (List (List Bool)) := (branches.find? fun b => b.1 == exc).map (·.2)
+
+/-- number of parameters `as_matrix` insists on: one coefficient array of shape `(L,…,L)` per cluster term -/
+def paramCount (L : Nat) (kss : List (List Bool)) : Nat := (kss.map fun k => L ^ k.length).sum
+
+/-- consecutive slices of the parameter vector, reshaped row-major, one per cluster term -/
+def sliceTerms (L : Nat) : List (List Bool) → Array GQ → Nat → List Mat
+  | [], _, _ => []
+  | k :: ks, params, off =>
+    termMat L k (params.extract off (off + L ^ k.length)) :: sliceTerms L ks params (off + L ^ k.length)
 
 /-- the cluster matrices `T` of `qUCC.as_matrix(params)` in the order in which their exponentials are multiplied;
-a wrong number of parameters is rejected with `ValueError` -/
-def quccTerms (L : Nat) (exc : Exc) (params : Array GQ) : Except String (List Mat) :=
-  if params.size ≠ numParameters L exc then .error "ValueError" else
-  match exc with
-  | .s => .ok [termMat L kindsS params]
-  | .d => .ok [termMat L kindsD params]
-  | .sd => .ok [termMat L kindsS (params.extract 0 (L ^ 2)), termMat L kindsD (params.extract (L ^ 2) params.size)]
+a wrong number of parameters is rejected with `ValueError`; a setting without a branch makes `as_matrix` fall
+through and return `None` -/
+def quccTerms (L : Nat) (exc : String) (params : Array GQ) : Except String (List Mat) :=
+  match kindsOf exc with
+  | none => .error "NoneReturned"
+  | some kss =>
+    if params.size ≠ paramCount L kss then .error "ValueError" else .ok (sliceTerms L kss params 0)
 
-/-- exponent of the coupled-cluster ansatz: `T_mat - T_mat.conjugate().T` -/
-def quccGenerator (T : Mat) : Mat := sub T T.adjoint
+/-- the adjoint part of the exponent: `T_mat.conjugate().T` (or `T_mat.T`, if the source says so) -/
+def adjPart (T : Mat) : Mat := if genAdjointConj then T.adjoint else T.transpose
+
+/-- exponent of the coupled-cluster ansatz: `T_mat - T_mat.conjugate().T` (sign and conjugation from the source) -/
+def quccGenerator (T : Mat) : Mat :=
+  Mat.ofFn T.n T.m fun i j => T.get i j + gqOfInts (genAdjointSign, 0) * (adjPart T).get i j
 
 /-! ### particle number -/
 
